@@ -236,11 +236,18 @@ Fixpoint pred_pass (S0 S : schema) (P : pres) : option (list K) :=
       end
   end.
 
+(** every proof carries the id it is stored under *)
+Definition proof_id (p : proof) : nat :=
+  match p with PSig sp => sp_id sp | PEq i => i | PComm i _ _ => i | POther i => i end.
+Definition ids_ok (P : pres) : bool := forallb (fun kp => Nat.eqb (proof_id (snd kp)) (fst kp)) (proofs P).
+
 Definition items (S : schema) (P : pres) : option (list K) :=
-  match sig_pass S P, pred_pass S S P with
-  | Some a, Some b => Some (a ++ b)
-  | _, _ => None
-  end.
+  if ids_ok P then
+    match sig_pass S P, pred_pass S S P with
+    | Some a, Some b => Some (a ++ b)
+    | _, _ => None
+    end
+  else None.
 
 (** pass 2: post-challenge verifiers *)
 Definition eq_verify (S : schema) (P : pres) (refs : list (nat * nat)) : bool :=
